@@ -17,7 +17,7 @@ import math
 import numpy as np
 from hypothesis import strategies as st
 
-from harness import build, gen
+from harness import build, gen, reps
 from harness import refmodel as rm
 
 RULE = (
@@ -489,18 +489,18 @@ def check_action(case, ctx):
     if builder == "h":
         fn = superop(bs[1:], h, zero_d, zero_k)
         req = case["required"] and small
-        lind = el.generate_effective_lindbladian_from_h(c_sys, h, is_physicality_required=req)
-        hs2 = el.generate_hs_from_h(c_sys, h)
+        lind = el.generate_effective_lindbladian_from_h(c_sys, reps.layout(h, "h"), is_physicality_required=req)
+        hs2 = el.generate_hs_from_h(c_sys, reps.layout(h, "h2"))
     elif builder == "hk":
         fn = superop(bs[1:], h, j, k)
         req = case["required"] and psd and small
-        lind = el.generate_effective_lindbladian_from_hk(c_sys, h, k, is_physicality_required=req)
-        hs2 = el.generate_hs_from_hk(c_sys, h, k)
+        lind = el.generate_effective_lindbladian_from_hk(c_sys, reps.layout(h, "h"), reps.layout(k, "k"), is_physicality_required=req)
+        hs2 = el.generate_hs_from_hk(c_sys, reps.layout(h, "h2"), reps.layout(k, "k2"))
     elif builder == "k":
         fn = superop(bs[1:], zero_d, j, k)
         req = case["required"] and psd and small
-        lind = el.generate_effective_lindbladian_from_k(c_sys, k, is_physicality_required=req)
-        hs2 = el.generate_hs_from_k(c_sys, k)
+        lind = el.generate_effective_lindbladian_from_k(c_sys, reps.layout(k, "k"), is_physicality_required=req)
+        hs2 = el.generate_hs_from_k(c_sys, reps.layout(k, "k2"))
     else:  # hjk with an arbitrary Hermitian J
         fn = superop(bs[1:], h, j, k)
         req = False
@@ -757,7 +757,7 @@ def check_exponential(case, ctx):
     # violation at 1e-13, and raising Settings.atol would also raise quara's truncation threshold) and are judged
     # by refmodel and by quara's verdict at an explicit tolerance.
     req = not big
-    lind = el.generate_effective_lindbladian_from_hk(c_sys, h, k, is_physicality_required=req)
+    lind = el.generate_effective_lindbladian_from_hk(c_sys, reps.layout(h, "h"), reps.layout(k, "k"), is_physicality_required=req)
     gate = lind.to_gate()
     ctx.check(type(gate) is Gate, "to_gate_type", str(type(gate)))
     ghs = np.asarray(gate.hs)
